@@ -431,4 +431,57 @@ def absNum {ν : Type} [PyNum ν] (x : ν) : ν := if PyNum.lt x ((0 : Int) : ν
 def absInt (x : Int) : Int := ((x.natAbs : Nat) : Int)
 -- --- end T14
 
+/-! --- T7: dictionaries keyed by ints / by frozensets of dict items, sets of ints, `max` of a set (harness/translate_t7.py: the
+    classes PauliTerm / PauliSum).  Every definition below is compared with CPython in `harness/prelude_check.py` (ops `t7_*`). -/
+
+/-- an `Option` read as "the value, or this exception" -/
+def ofOption {α : Type} (e : Exc4) : Option α → Except Exc4 α
+  | some a => .ok a
+  | none => .error e
+
+/-- `k in d` -/
+def dictHas {κ ν : Type} [BEq κ] (d : Dict κ ν) (k : κ) : Bool := d.any (fun p => p.1 == k)
+
+/-- `d.get(k)` (`none` = missing) -/
+def dictFind? {κ ν : Type} [BEq κ] : Dict κ ν → κ → Option ν
+  | [], _ => none
+  | (k', v) :: rest, k => if k' == k then some v else dictFind? rest k
+
+/-- `del d[k]`: `KeyError` for a missing key -/
+def dictDelE {κ ν : Type} [BEq κ] (d : Dict κ ν) (k : κ) : Except Exc4 (Dict κ ν) :=
+  if dictHas d k then .ok (d.filter (fun p => !(p.1 == k))) else .error .key
+
+/-- `frozenset(d.items())` of a dict `d`, represented by `d` itself; compared with `frozenItemsEq` only -/
+abbrev FrozenItems (κ ν : Type) := List (κ × ν)
+
+/-- `frozenset(d.items()) == frozenset(e.items())` for dicts `d`, `e`: every item of either is an item of the other -/
+def frozenItemsEq {κ ν : Type} [BEq κ] [BEq ν] (a b : FrozenItems κ ν) : Bool :=
+  a.all (fun p => dictFind? b p.1 == some p.2) && b.all (fun p => dictFind? a p.1 == some p.2)
+
+/-- `k in d` for a dict whose keys are compared by `eq` (stored key first) -/
+def dictHasBy {κ ν : Type} (eq : κ → κ → Bool) (d : Dict κ ν) (k : κ) : Bool := d.any (fun p => eq p.1 k)
+
+/-- `d[k]` for a dict whose keys are compared by `eq` -/
+def dictGetByE {κ ν : Type} (eq : κ → κ → Bool) : Dict κ ν → κ → Except Exc4 ν
+  | [], _ => .error .key
+  | (k', v) :: rest, k => if eq k' k then .ok v else dictGetByE eq rest k
+
+/-- `d[k] = v` for a dict whose keys are compared by `eq`: an existing key (object) keeps its position, a new key is appended -/
+def dictSetBy {κ ν : Type} (eq : κ → κ → Bool) : Dict κ ν → κ → ν → Dict κ ν
+  | [], k, v => [(k, v)]
+  | (k', v') :: rest, k, v => if eq k' k then (k', v) :: rest else (k', v') :: dictSetBy eq rest k v
+
+/-- `set(xs)`: the distinct elements in order of first occurrence (the ITERATION order is an external, see `PySet`) -/
+def setOfList {α : Type} [BEq α] (xs : List α) : PySet α :=
+  xs.foldl (fun acc x => if acc.contains x then acc else acc ++ [x]) []
+
+/-- `s == t` on sets -/
+def setEq {α : Type} [BEq α] (a b : PySet α) : Bool := a.all (fun x => b.contains x) && b.all (fun x => a.contains x)
+
+/-- `max(xs)` of non-negative ints (a list or a set): `ValueError` when empty -/
+def maxNatE : List Nat → Except Exc4 Nat
+  | [] => .error .value
+  | x :: xs => .ok (xs.foldl max x)
+-- --- end T7
+
 end OQ.Py
